@@ -21,7 +21,7 @@ from .surface import Form, Printer
 
 NOISE = ['// noise', '// first\n// second', '/* block */', '/* multi\n   line */', "// it's \"q\"", '// { } [ ] ( )',
          '// Table zz { id int }', "/* '); DROP TABLE x; -- */", '// a * b / c', "// note: 'x'", '/* Ref: a.b > c.d */',
-         '//', '/**/', '// ünï 中']
+         '//', '/**/', '// ünï 中', '/** banner **/', '/***/', '/* x **/']
 
 
 MID_NOISE = [t for t in NOISE if t.startswith('/*') and '\n' not in t]
